@@ -167,6 +167,44 @@ impl Check for C04 {
                 }
             }
         }
+        // ---- a chunk and its same-length sibling: the genuine chunk is delivered (and parsed) first, then bytes differing in
+        // one place - hence of another address - are presented under the genuine chunk's key, several times, over both paths
+        for round in 0..2 {
+            let g = make_item(&mut cx.rng, Kind::Chunk);
+            let (n2, rec) = (node.clone(), g.plain_record.clone());
+            let _ = sim.run_op(async move { n2.store_replicated_in_record(rec).await });
+            for attempt in 0..3 {
+                let mut forged = g.plain_record.clone();
+                let l = forged.value.len();
+                if l < 8 {
+                    continue;
+                }
+                let i = cx.rng.gen_range(l / 2..l);
+                forged.value[i] ^= 1 << cx.rng.gen_range(0..8);
+                let path = (round + attempt) % 2;
+                if path == 0 {
+                    // the same bytes as a paid upload: a valid proof for the genuine address
+                    let Ok(c) = ant_protocol::storage::try_deserialize_record::<ant_protocol::storage::Chunk>(&forged) else { continue };
+                    let proof = build_proof(&mut cx.rng, &env, g.content, 3, Conds::all(), sim.stub.as_ref().expect("stub"));
+                    let Ok(v) = ant_protocol::storage::try_serialize_record(&(proof, c), RecordKind::ChunkWithPayment) else { continue };
+                    forged.value = v.to_vec();
+                }
+                // the genuine chunk is read once more right before (a replication round, a client read): parse + drop
+                let _ = sim.get_local(0, &g.key);
+                let _ = ant_protocol::storage::try_deserialize_record::<ant_protocol::storage::Chunk>(&g.plain_record);
+                let mut probe = victim_keys.clone();
+                probe.push(g.key.clone());
+                let before = store_image(&mut sim, &probe);
+                let (n2, rec) = (node.clone(), forged.clone());
+                let res = if path == 1 { sim.run_op(async move { n2.store_replicated_in_record(rec).await }) } else { sim.run_op(async move { n2.validate_and_store_record(rec).await }) };
+                let after = store_image(&mut sim, &probe);
+                cx.eval();
+                cx.count("variant:same-length-sibling-under-the-genuine-key");
+                if let Some(res) = res {
+                    judge_mismatch(cx, &format!("{}:Chunk", ["client-paid", "replication"][path]), &format!("{res:?}"), res.is_ok(), &before, &after, "same-length-sibling-under-the-genuine-key");
+                }
+            }
+        }
         // ---- transaction vectors mixing owners (replication path)
         {
             let (o1, o2) = (gen::bls_sk(&mut cx.rng), gen::bls_sk(&mut cx.rng));
